@@ -394,6 +394,104 @@ def selectors(rep):
     rep.end_kernel()
 
 
+def h_errsign(mods, varyname):
+    """the real fitting.errors on a component and on its negation (amplitude, peak and integrated flux negated, everything
+    else -- shape, position, standard errors, WCS answers -- identical): every reported uncertainty must be the same"""
+    from checks import C03, r2c
+    fit = mods['fitting']
+
+    def h(c):
+        S = r2c.setup(c, mods, ncomp=1)
+        model, helper = S['model'], S['helper']
+        for p, v in C03.VARY[varyname].items():
+            model['c0_' + p].vary = bool(v)
+        cnt = [0]
+
+        def fresh(lo=None, hi=None):
+            cnt[0] += 1
+            v = real('g%d' % cnt[0])
+            if lo is not None:
+                c.assume(v.e >= lo)
+            if hi is not None:
+                c.assume(v.e <= hi)
+            return v
+        fit.gcd = lambda *a: fresh(0)
+        fit.bear = lambda *a: fresh(-180, 180)
+        helper.pix2sky = lambda p: [fresh(0, 360), fresh(-90, 90)]
+        peak, intf = real('peak'), real('intf')
+        c.assume(peak.e != 0)
+        outs = []
+        amp0 = model['c0_amp'].value
+        for sign in (1, -1):
+            class Src:
+                pass
+            s = Src()
+            s.source, s.flags = 0, 0
+            s.peak_flux, s.int_flux = sign * peak, sign * intf
+            s.a, s.b, s.pa = real('A'), real('B'), real('PA')
+            if sign == 1:
+                c.assume(s.a.e > 0)
+                c.assume(s.b.e > 0)
+            model['c0_amp'].value = sign * amp0
+            cnt[0] = 0
+            fit.errors(s, model, helper)
+            outs.append(s)
+        tag = 'errors[vary=%s]' % varyname
+        for nm in C03.ERRS:
+            v1, v2 = getattr(outs[0], nm, None), getattr(outs[1], nm, None)
+            if isinstance(v1, SN) or isinstance(v2, SN):
+                c.oblige(tag + ':%s unchanged under negation' % nm, core.lift(v1) == core.lift(v2), timeout_ms=30000)
+            else:
+                c.oblige(tag + ':%s unchanged under negation' % nm, z3.BoolVal(v1 == v2))
+        c.oblige(tag + ':flags unchanged under negation', z3.BoolVal(outs[0].flags == outs[1].flags) if not isinstance(outs[0].flags, SN) and not isinstance(outs[1].flags, SN) else core.lift(outs[0].flags) == core.lift(outs[1].flags))
+        return dict()
+    return h
+
+
+def errsign_oracle():
+    """real fitting.errors on a fitted component and on its negation"""
+    from checks import C03
+    import copy
+    import lmfit
+    from astropy.io import fits
+    fit = loader.real('fitting')
+    wh = loader.real('wcs_helpers')
+    models = loader.real('models')
+    hdr = fits.Header()
+    hdr['NAXIS'] = 2
+    hdr['NAXIS1'] = hdr['NAXIS2'] = 12
+    hdr['CTYPE1'], hdr['CTYPE2'] = 'RA---SIN', 'DEC--SIN'
+    hdr['CRVAL1'], hdr['CRVAL2'] = 10., -20.
+    hdr['CRPIX1'] = hdr['CRPIX2'] = 6.
+    hdr['CDELT1'], hdr['CDELT2'] = -0.01, 0.01
+    hdr['BMAJ'] = hdr['BMIN'] = 0.03
+    hdr['BPA'] = 0.
+    helper = wh.WCSHelper.from_header(hdr)
+    for free in (C03.VARY['all'], C03.VARY['stage1'], C03.VARY['stage2']):
+        res = []
+        for sign in (1, -1):
+            m = lmfit.Parameters()
+            vals = dict(amp=sign * 7.5, xo=5.3, yo=6.1, sx=1.7, sy=1.2, theta=33.0)
+            errs = dict(amp=0.31, xo=0.05, yo=0.07, sx=0.06, sy=0.04, theta=2.5)
+            for k, v in vals.items():
+                m.add('c0_' + k, value=v, vary=bool(free[k]))
+                m['c0_' + k].stderr = errs[k]
+            m.add('components', value=1, vary=False)
+            s = models.ComponentSource()
+            s.source = 0
+            s.ra, s.dec = 10.0, -20.0
+            s.peak_flux, s.int_flux = sign * 7.5, sign * 9.1
+            s.a, s.b, s.pa = 140.0, 100.0, 33.0
+            s.local_rms = 0.3
+            fit.errors(s, m, helper)
+            res.append(s)
+        for nm in C03.ERRS + ['flags']:
+            v1, v2 = getattr(res[0], nm), getattr(res[1], nm)
+            if not (v1 == v2 or abs(v1 - v2) <= 1e-9 * max(abs(v1), abs(v2))):
+                return True, 'errors-sign:%s' % nm, 'fitting.errors on amp=+7.5 gives %s=%r, on amp=-7.5 gives %r (free parameters %s)' % (nm, v1, v2, [k for k in free if free[k]])
+    return False, None, None
+
+
 def run(rep):
     sf, models = I.sym_finder()
     thorough = rep.tier == 'thorough'
@@ -424,7 +522,29 @@ def run(rep):
     rep.validated_runs(3)
     if bad:
         rep.finding('C13/K-polarity-filter/%s' % cls, dict(kind='polarity-catalogue'), detail, kernel='K-polarity-filter')
-    rep.not_decided += ['equality of the fitted catalogues of an image and its negation (needs the optimiser)', 'errors and flags unchanged under negation']
+    from checks import C03, r2c
+    mods = r2c.sym_sf()
+    rep.kernel('K-errors-sign', functions=['AegeanTools/fitting.py:errors'], bounds='one component, free-parameter patterns all / stage 1 / stage 2, all parameters, standard errors, fluxes of either sign symbolic',
+               stubs=['pix2sky / gcd / bear -> the same arbitrary answers in both runs (position and shape do not change under negation)'],
+               outside=['the standard errors themselves being equal for the two fits (optimiser)'])
+    edone = False
+    for st, res in core.explore_many([(h_errsign(mods, vn), dict(wall_s=600)) for vn in C03.VARY], workers=16):
+        rep.stats(st)
+        for r in res:
+            for ob in r['obligations']:
+                rep.count(ob['result'], ob['name'])
+                if ob['result'] == 'sat' and not edone:
+                    bad, cls, detail = errsign_oracle()
+                    if rep.finding('C13/K-errors-sign/%s' % (cls or ob['name'].split(':')[-1]), dict(kind='errors-sign'), detail or ob['name'], reproduced=bad) != 'not-reproduced':
+                        edone = True
+        if res:
+            rep.sample(dict(kernel='K-errors-sign', paths=len(res), obligations=[(o['name'], o['result']) for o in res[0]['obligations']]))
+    rep.end_kernel()
+    bad, cls, detail = errsign_oracle()
+    rep.validated_runs(3)
+    if bad:
+        rep.finding('C13/K-errors-sign/%s' % cls, dict(kind='errors-sign'), detail, kernel='K-errors-sign')
+    rep.not_decided += ['equality of the fitted catalogues of an image and its negation (needs the optimiser)', 'errors unchanged under negation: decided for fitting.errors given equal standard errors; the optimiser is outside']
 
 
 def replay(w):
@@ -435,6 +555,8 @@ def replay(w):
         bad, cls, detail = replay_selector(wit)
     elif wit.get('kind') == 'polarity-catalogue':
         bad, cls, detail = polarity_oracle()
+    elif wit.get('kind') == 'errors-sign':
+        bad, cls, detail = errsign_oracle()
     else:
         return False, 'no concrete replay for this kernel'
     return bad, '%s: %s' % (cls, detail)
